@@ -65,6 +65,55 @@ def run(facts, cg):
     if len(users) < 2:
         finding('R-REMOVE-ON-WRITE', '-', 'floor', 'expected feed and reorder_in_place to use the write primitive (found %d users)' % len(users))
 
+    # ---------------------------------------------------------------- R-STOREONCE: a chunk parked in memory is read from the output once
+    # The planner emits one StoreInMem per chunk that is about to overwrite R; only the first finds R intact.  Reading R
+    # again after a copy has landed on part of it replaces the good in-memory copy with a mix (and it is written unverified).
+    from .r_steps import bool_switch_polarity
+    from ..paths import switch_edges
+    VER = 'bitar::chunk::VerifiedChunk'
+    n_store = 0
+    for b in facts.bodies.values():
+        if not b.id.startswith('bitar::clone_output::') or b.generated:
+            continue
+        dom = None
+        for bi, t in b.calls():
+            if 'q' not in t['callee'] or not callee_q(t).endswith('HashMap::insert') or len(t['args']) < 3:
+                continue
+            a2 = t['args'][2]
+            if a2['k'] not in ('copy', 'move') or b.lty(a2['pl']['l']).get('adt') != VER:
+                continue
+            n_store += 1
+            dom = dom or b.dominators()
+            mbase = b.base_of(t['args'][0])
+            guarded = False
+            for cbi, ct in b.calls():
+                if 'q' not in ct['callee'] or not callee_q(ct).endswith(('HashMap::contains_key', 'HashMap::get')) or ct['t'] is None:
+                    continue
+                if b.base_of(ct['args'][0])[0] != mbase[0]:
+                    continue
+                sw = b.blocks[ct['t']]['term']
+                if sw['k'] != 'switch':
+                    continue
+                if callee_q(ct).endswith('contains_key'):
+                    term, flipped = bool_switch_polarity(b, T, sw)
+                    for v, tgt in switch_edges(sw):
+                        val = (v != 0) if v is not None else True
+                        if flipped:
+                            val = not val
+                        if val is False and tgt in dom.get(bi, ()) and tgt != ct['t']:
+                            guarded = True
+                else:
+                    # match map.get(k) { None => insert .. }: discriminant 0 = None
+                    for v, tgt in switch_edges(sw):
+                        if v == 0 and tgt in dom.get(bi, ()):
+                            guarded = True
+            instances.append({'rule': 'R-STOREONCE', 'function': b.q, 'insert_at': t['loc'], 'guarded_by_absence_test': guarded})
+            if not guarded:
+                finding('R-STOREONCE', b.q, 'unguarded-store', 'a chunk read back from the output is put into the in-memory store at %s without testing that it is not '
+                        'there yet: a later StoreInMem of the same chunk re-reads its (by then partly overwritten) place and replaces the good copy' % t['loc'])
+    if n_store < 1:
+        finding('R-STOREONCE', '-', 'floor', 'no in-memory store of chunks found in the reorder executor (cannot decide)')
+
     # ---------------------------------------------------------------- R-DOMINATES strip ≺ reorder, roles
     for (b, bi, t) in cg.calls_to(REORDER):
         if b.crate != 'bitar' or b.q.startswith('bitar::chunk_index::'):
